@@ -22,6 +22,7 @@ MidKinds  == {"v", "F", "R", "ThS", "ThA", "Gn", "Pp", "Pc"}
 CoreKinds == {"v", "F", "ThS"}
 
 Aw(x)      == [op |-> "aw", x |-> x, s |-> 0]
+Awc(x)     == [op |-> "awc", x |-> x, s |-> 0]
 Res(s, x)  == [op |-> "res", x |-> x, s |-> s]
 Rej(s)     == [op |-> "rej", x |-> O("u"), s |-> s]
 
@@ -33,6 +34,12 @@ SeqsOfLen(S, k) == [1..k -> S]
 
 ATask(ss, r) == [kind |-> "A", steps |-> ss, ret |-> r]
 CTask(b, ls) == [kind |-> "C", base |-> b, links |-> ls]
+MTask(c, xs) == [kind |-> "M", comb |-> c, xs |-> xs]
+GTask(ss, r) == [kind |-> "G", steps |-> ss, ret |-> r]
+Yi(x)      == [op |-> "yi", x |-> x, s |-> 0]
+Ys(j)      == [op |-> "ys", x |-> O("u"), s |-> j]
+Gq(g, j)   == [op |-> "gq", x |-> O("u"), s |-> j, g |-> g]
+Awq(g, j)  == [op |-> "awq", x |-> O("u"), s |-> j, g |-> g]
 
 \* the clock: a chain of n plain reactions; its k-th print marks the k-th generation of jobs
 Clock(n) == CTask(O("u"), [k \in 1..n |-> ThenL(O("u"), None)])
@@ -49,7 +56,8 @@ TaskSeqs(p, n, w) ==
 
 \* operands occurring in a task, in textual order (for well-formedness / canonical form)
 OpsOfTask(t) ==
-  IF t.kind = "A" THEN [k \in 1..Len(t.steps) |-> t.steps[k].x] \o <<t.ret>>
+  IF t.kind \in {"A", "G"} THEN [k \in 1..Len(t.steps) |-> t.steps[k].x] \o <<t.ret>>
+  ELSE IF t.kind = "M" THEN t.xs
   ELSE <<t.base>> \o [k \in 1..(2 * Len(t.links)) |->
                         IF k % 2 = 1 THEN t.links[(k + 1) \div 2].f ELSE t.links[k \div 2].r]
 
@@ -128,11 +136,50 @@ Trio == [ns |-> 1,
          rets |-> {O("u")}, bases |-> {O("F"), OS(1)}, links |-> {ThenL(O("u"), None)},
          maxw |-> 1, clock |-> 0, lates |-> NoLate]
 
+\* F5: await inside try / catch: execution continues after a rejected await
+Caught == [ns |-> 0, steps |-> {Awc(x) : x \in Kinds({"R", "ThR", "ThT", "Gx", "v"})} \cup {Aw(O("v")), Aw(O("R"))},
+           rets |-> {O("u"), Thr}, bases |-> {}, links |-> {}, maxw |-> 2, clock |-> 6, lates |-> NoLate]
+
+\* F6: combinators (library code of the model) over every operand kind, alone against the clock,
+\*     and over a shared promise that another task settles
+Combs == {"all", "allSettled", "race", "any"}
+CombUniv(ops, maxn, before, after, ns, clock) ==
+  {Mk(ns, b \o <<MTask(c, xs)>> \o a \o (IF clock = 0 THEN <<>> ELSE <<Clock(clock)>>), <<>>) :
+     c \in Combs, xs \in UNION {SeqsOfLen(ops, n) : n \in 0..maxn}, b \in before, a \in after}
+Settlers == {<<ATask(<<st>>, O("u"))>> : st \in {Res(1, O("v")), Res(1, O("F")), Rej(1), Aw(O("v"))}}
+            \cup {<<ATask(<<Aw(O("v")), st>>, O("u"))>> : st \in {Res(1, O("v")), Rej(1)}}
+
+\* F7: an async generator (task 1) driven by a consumer (task 2) that fires requests back to back
+\*     (request queue) or awaits them one by one; against the clock
+SeqsUpTo(S, n) == UNION {SeqsOfLen(S, k) : k \in 0..n}
+GenUniv(bsteps, maxb, rets, csteps, maxc, clock) ==
+  {Mk(0, <<GTask(b, r), ATask(c, O("u"))>> \o (IF clock = 0 THEN <<>> ELSE <<Clock(clock)>>), <<>>) :
+     b \in SeqsUpTo(bsteps, maxb), r \in rets, c \in SeqsUpTo(csteps, maxc) \ {<<>>}}
+\* F8: yield*: generator 2 delegates to generator 1; the consumer (task 3) drives generator 2
+DelegUniv(isteps, maxi, irets, osteps, maxo, csteps, maxc, clock) ==
+  {Mk(0, <<GTask(ib, ir), GTask(ob, O("u")), ATask(c, O("u"))>> \o (IF clock = 0 THEN <<>> ELSE <<Clock(clock)>>), <<>>) :
+     ib \in SeqsUpTo(isteps, maxi), ir \in irets,
+     ob \in {x \in SeqsUpTo(osteps, maxo) : \E k \in 1..Len(x) : x[k].op = "ys"},
+     c \in SeqsUpTo(csteps, maxc) \ {<<>>}}
+Reqs3 == {Gq("next", 1), Gq("return", 1), Awq("next", 1)}
+Reqs5 == Reqs3 \cup {Gq("throw", 1), Awq("return", 1)}
+
 \* (operators with a dummy parameter: TLC evaluates every zero-arity constant definition eagerly)
 QuickScenarios(z) ==
   Univ(SoloA, 1, 1) \cup Univ(SoloB, 1, 1) \cup Univ(SoloC, 1, 1) \cup Univ(Solo2, 1, 2)
   \cup Univ(SharedFull, 2, 2) \cup Univ(SharedCore, 2, 3)
   \cup Univ(SharedLate, 2, 2) \cup Univ(OnTask, 2, 3) \cup Univ(Trio, 3, 3)
+  \cup Univ(Caught, 1, 2)
+  \cup CombUniv(Kinds(FullKinds), 1, {<<>>}, {<<>>}, 0, 5)
+  \cup CombUniv(Kinds({"v", "F", "R", "ThS"}), 2, {<<>>}, {<<>>}, 0, 5)
+  \cup CombUniv({OS(1), O("v"), O("R")}, 2, {<<>>}, Settlers, 1, 0)
+  \cup GenUniv({Yi(O("v")), Yi(O("F")), Aw(O("v"))}, 2, {O("u"), O("F"), Thr}, Reqs3, 2, 6)
+  \cup GenUniv({Yi(O("v")), Yi(O("F"))}, 1, {O("u"), Thr}, Reqs3, 3, 6)
+  \cup GenUniv({Yi(x) : x \in Kinds(FullKinds)}, 1, {O("u")}, {Gq("next", 1)}, 2, 6)
+  \cup GenUniv({}, 0, Kinds(FullKinds), {Gq("next", 1), Gq("return", 1)}, 2, 6)
+  \cup GenUniv({Yi(O("v"))}, 2, {O("v")}, Reqs5, 3, 0)
+  \cup DelegUniv({Yi(O("v"))}, 2, {O("u"), O("v"), Thr}, {Ys(1)}, 1,
+              {Gq("next", 2), Gq("return", 2), Gq("throw", 2), Awq("next", 2)}, 3, 6)
 
 -----------------------------------------------------------------------------
 \* Thorough tier: deeper and wider versions of the same families
@@ -161,6 +208,13 @@ ThoroughScenarios(z) ==
   QuickScenarios(z) \cup Univ(Solo3, 1, 3) \cup Univ(SoloBC, 1, 1)
   \cup Univ(SharedWide, 2, 3) \cup Univ(Shared3, 3, 3) \cup Univ(Shared2, 3, 3)
   \cup Univ(OnTaskWide, 2, 3) \cup Univ(OnTask3, 3, 3) \cup Univ(Quad, 4, 4)
+  \cup Univ([Caught EXCEPT !.maxw = 3], 1, 3)
+  \cup CombUniv(Kinds(MidKinds), 2, {<<>>}, {<<>>}, 0, 5)
+  \cup CombUniv({OS(1), O("v"), O("R"), O("F"), O("ThS")}, 2, Settlers \cup {<<>>}, Settlers, 1, 0)
+  \cup CombUniv({OS(1), O("v"), O("R")}, 3, {<<>>}, Settlers, 1, 0)
+  \cup GenUniv({Yi(O("v")), Yi(O("F")), Yi(O("R")), Aw(O("v"))}, 2, {O("u"), O("F"), Thr}, Reqs5, 3, 6)
+  \cup DelegUniv({Yi(O("v")), Aw(O("v"))}, 2, {O("u"), O("v"), Thr}, {Ys(1), Yi(O("v"))}, 2,
+              {Gq("next", 2), Gq("return", 2), Gq("throw", 2), Awq("next", 2)}, 3, 6)
 
 -----------------------------------------------------------------------------
 \* scenarios supplied by the driver (seeded samples beyond the exhaustive bound): ndjson file
